@@ -117,3 +117,78 @@ def column_name_variables(prop, tier, seed):
     return {'job': 'column_name_variables', 'evaluations': n, 'distinct_nontrivial': n, 'exhaustive': False,
             'rule': 'seeded headers of 1-4 distinct names over 20 names (quotes, backslash, brackets, tab/newline/CR, non-ASCII, punctuation) x every column position x both quote styles (+ a.name for identifiers) x 4 query shapes; direct mode; CSV header/NR with caller flag x WITH modifier x join',
             'failures': fails, 'samples': ['select a["quo\\"te"]']}
+
+
+HOSTILE_IDS = ['t1; drop table x', 't1;drop table x;--', 't1 x', 't1--', 't1"', "t1'", 't1)', 't1,x', 't1 union select * from x', 'x y', 't1/*', 't1\t', 't1.x',
+               'main.t1', '[t1]', 't1;', ';t1', 't1 ', ' t1', 't1 where 1', 't1+x', '(select 1)', 't1\x00', 'tä', 't1;drop', 'x;delete from t1', 'x--', 'x;']
+
+
+def _sqlite_db(tmp):
+    import sqlite3
+    p = os.path.join(tmp, 'db.sqlite')
+    conn = sqlite3.connect(p)
+    conn.execute('create table t1 (k text, v text)')
+    conn.execute('create table x (k text, w text)')
+    conn.executemany('insert into t1 values (?, ?)', [('a', '1'), ('b', '2')])
+    conn.executemany('insert into x values (?, ?)', [('a', 'p'), ('c', 'q')])
+    conn.commit()
+    return conn
+
+
+def _sqlite_dump(conn):
+    return [(n, conn.execute('select * from "%s"' % n).fetchall()) for (n,) in conn.execute("select name from sqlite_master where type='table' order by name").fetchall()]
+
+
+def _sqlite_case(name, via):
+    """-> (statements sent to sqlite that are not made of an identifier of letters/digits/underscore, outcome, db unchanged?)"""
+    import re as _re
+    rbql, eng = load_rbql()
+    from rbql import rbql_sqlite
+    tmp = tempfile.mkdtemp(prefix='rbql_verif_c06_')
+    try:
+        conn = _sqlite_db(tmp)
+        before = _sqlite_dump(conn)
+        sent = []
+        conn.set_trace_callback(sent.append)
+        outcome = 'ok'
+        try:
+            if via == 'iterator':
+                rbql_sqlite.SqliteRecordIterator(conn, name)
+            else:
+                it = rbql_sqlite.SqliteRecordIterator(conn, 't1')
+                out = []
+                eng.query('select a1, b2 join %s on a1 == b1' % name, it, eng.TableWriter(out), [], rbql_sqlite.SqliteDbRegistry(conn))
+        except Exception as e:
+            outcome = type(e).__name__
+        conn.set_trace_callback(None)
+        bad = [s for s in sent if not _re.match(r'\ASELECT \* FROM [a-zA-Z0-9_]*;\Z', s)]
+        after = _sqlite_dump(conn)
+        conn.close()
+        return bad, outcome, before == after
+    finally:
+        for f in os.listdir(tmp):
+            os.unlink(os.path.join(tmp, f))
+        os.rmdir(tmp)
+
+
+@job('C06')
+def sqlite_identifiers(prop, tier, seed):
+    fails = []
+    n = 0
+    for name in HOSTILE_IDS + ['t1', 'x', 'T_1', 'nosuch']:
+        for via in ('iterator', 'query'):
+            if via == 'query' and (name != name.strip() or '\x00' in name or '\t' in name):
+                continue        # the query text cannot carry these (cleanup_query / clause splitting), only the API can
+            n += 1
+            bad, outcome, same = _sqlite_case(name, via)
+            if bad or not same:
+                fails.append({'replay': 'sqlite_id', 'key': 'sqlite-id:%s:%r' % (via, name), 'name': name, 'via': via,
+                              'expected': 'only SELECT * FROM <letters/digits/underscore>; reaches sqlite; database unchanged', 'observed': {'sent': bad, 'outcome': outcome, 'db_unchanged': same}})
+    return {'job': 'sqlite_identifiers', 'evaluations': n, 'distinct_nontrivial': n, 'exhaustive': False,
+            'rule': '%d hostile table identifiers (statement separators, comments, quotes, spaces, unions, dots, brackets, NUL, non-ASCII) + 4 benign ones, through SqliteRecordIterator directly and through the JOIN clause of a query with SqliteDbRegistry; sqlite3 trace callback records every statement sent; database dumped before/after' % len(HOSTILE_IDS),
+            'failures': fails, 'samples': HOSTILE_IDS[:3]}
+
+
+def replay_sqlite_id(case):
+    bad, outcome, same = _sqlite_case(case['name'], case['via'])
+    return {'fails': bool(bad) or not same, 'name': case['name'], 'expected': case.get('expected'), 'observed': {'sent': bad, 'outcome': outcome, 'db_unchanged': same}}
